@@ -26,7 +26,8 @@ Step ==
     \/ a.n = "Split" /\ Split({a.k[i] : i \in 1..Len(a.k)})
     \/ a.n = "Close" /\ Close(a.ok)
 Got == [post |-> Ev.post, err |-> Ev.err, res |-> Ev.res]
-Want == [post |-> [k \in DOMAIN Ev.post |-> Obs'[k]], err |-> err', res |-> ResView']
+\* fields the driver logged that the specification does not know (an escaped exception) can never match
+Want == [post |-> [k \in (DOMAIN Ev.post) \cap (DOMAIN Obs') |-> Obs'[k]], err |-> err', res |-> ResView']
 ObsMatch == \/ Want = Got
             \/ /\ Want # Got
                /\ PrintT(ToJson([mismatch |-> Traces[tid].id, at |-> l, expected |-> Want]))
